@@ -370,6 +370,26 @@ Definition merge (P : prog) (parent : frame) (opts : list (option frame)) : opti
       Some (flat_map (merge_key P parent live all_reach) keys)
   end.
 
+(* certifying mode only: validate a merge result -- every entry is a supertype of the corresponding
+   entry of every live option (translation validation of update_from_options) *)
+Definition merge_cert (P : prog) (r : option frame) (opts : list (option frame)) : bool :=
+  match r with
+  | None => true
+  | Some fr =>
+      forallb (fun kv =>
+        forallb (fun f => match lookup f (fst kv) with
+                          | Some (ti, _) => is_subtype P ti (fst (snd kv))
+                          | None => false
+                          end) (somes opts)) fr
+  end.
+
+(* certifying mode only: every entry of V' covers what was known about the variable in (d, fr) *)
+Definition view_le (P : prog) (d : decls) (fr V' : frame) : bool :=
+  forallb (fun kv => match view d fr (fst kv) with
+                     | Some t => is_subtype P t (fst (snd kv))
+                     | None => true
+                     end) V'.
+
 (* binder.update_from_options' `changed`, for accept_loop *)
 Definition changed (P : prog) (d : decls) (old new : frame) : bool :=
   existsb (fun kv =>
@@ -389,9 +409,12 @@ Definition loop_pass (P : prog) (sm : bool) (chk : cst -> res cst) (c : expr) (d
   : res (decls * frame * tmap * bool) :=
   bind (infer P sm d V c) (fun xc =>
     bind (chk {| decl := d; cur := push_map (Some V) (fst (snd xc)) false |}) (fun r1 =>
-      let E := merge P V [cur r1; push_map (Some V) (snd (snd xc)) false] in
-      let V' := unwrap_frame (merge P V [Some V; E]) in
-      Ok (decl r1, V', snd (snd xc), changed P (decl r1) V V'))).
+      let o1 := [cur r1; push_map (Some V) (snd (snd xc)) false] in
+      let E := merge P V o1 in
+      let o2 := [Some V; E] in
+      let V' := unwrap_frame (merge P V o2) in
+      if sm && negb (merge_cert P E o1 && merge_cert P (merge P V o2) o2) then Unsup
+      else Ok (decl r1, V', snd (snd xc), changed P (decl r1) V V'))).
 
 (* accept_loop: at most 4 passes (`iter > 3`), stop earlier when the binder did not change *)
 Fixpoint loop_iter (P : prog) (sm : bool) (chk : cst -> res cst) (c : expr) (n : nat) (d : decls) (V : frame)
@@ -417,8 +440,13 @@ Definition stable (P : prog) (V V' : frame) : bool :=
   forallb (fun kv => match lookup V' (fst kv) with
                      | Some (t', _) => is_subtype P t' (fst (snd kv))
                      | None => false
-                     end) V
-  && forallb (fun kv => in_dom (fst kv) V) V'.
+                     end) V.
+
+Fixpoint set_decl (d : decls) (x : id) (t : ty) : decls :=
+  match d with
+  | [] => []
+  | (y, u) :: r => if Nat.eqb x y then (y, t) :: r else (y, u) :: set_decl r x t
+  end.
 
 Definition is_none_lit (e : expr) : bool := match e with ENone => true | _ => false end.
 
@@ -435,10 +463,13 @@ Fixpoint check_stmt (P : prog) (strict : bool) (ret : ty) (st : cst) (s : stmt) 
     | SSeq a b => bind (check_stmt P strict ret st a) (fun st1 => check_stmt P strict ret st1 b)
     | SExpr e => bind (infer P strict d fr e) (fun _ => Ok st)
     | SDecl x t e =>
-        bind (infer P strict d fr e) (fun xe =>
-          if is_subtype P (fst xe) t
-          then Ok {| decl := if in_dom x d then d else d ++ [(x, t)]; cur := Some (remove fr x) |}
-          else Rej None)
+        (* the annotation is in force while the initialiser is checked; no narrowing on declaration *)
+        let d1 := if in_dom x d then d else d ++ [(x, t)] in
+        bind (infer P strict d1 fr e) (fun xe =>
+          match lookup d1 x with
+          | Some t1 => if is_subtype P (fst xe) t1 then Ok {| decl := d1; cur := Some (remove fr x) |} else Rej None
+          | None => Rej None
+          end)
     | SAssign x e =>
         bind (infer P strict d fr e) (fun xe =>
           let te := fst xe in
@@ -446,30 +477,42 @@ Fixpoint check_stmt (P : prog) (strict : bool) (ret : ty) (st : cst) (s : stmt) 
           | Some dt =>
               if is_subtype P te dt then Ok {| decl := d; cur := Some (update fr x (te, true)) |}
               else if is_none_lit e then Unsup else Rej None
-          | None =>
-              if is_none_ty te || is_never te then Unsup      (* partial types *)
-              else Ok {| decl := d ++ [(x, te)]; cur := Some (remove fr x) |}
+          | None => Unsup          (* bound only in code the checker skipped *)
           end)
+    | SDef x e =>
+        (* checker.infer_variable_type: the defining assignment (re-)infers the declared type on every visit *)
+        bind (infer P strict d fr e) (fun xe =>
+          let te := fst xe in
+          if is_none_ty te || is_never te then Unsup      (* partial types *)
+          else match lookup d x with
+               | None => Ok {| decl := d ++ [(x, te)]; cur := Some (remove fr x) |}
+               | Some dt =>
+                   if strict then (if ty_same P te dt then Ok {| decl := d; cur := Some (remove fr x) |} else Unsup)
+                   else Ok {| decl := set_decl d x te; cur := Some (remove fr x) |}
+               end)
     | SIf c s1 s2 =>
         bind (infer P strict d fr c) (fun xc =>
           bind (check_stmt P strict ret {| decl := d; cur := push_map (Some fr) (fst (snd xc)) false |} s1) (fun r1 =>
             bind (check_stmt P strict ret {| decl := decl r1; cur := push_map (Some fr) (snd (snd xc)) false |} s2) (fun r2 =>
-              Ok {| decl := decl r2; cur := merge P fr [cur r1; cur r2] |})))
+              let mg := merge P fr [cur r1; cur r2] in
+              if strict && negb (merge_cert P mg [cur r1; cur r2]) then Unsup
+              else Ok {| decl := decl r2; cur := mg |})))
     | SWhile c b =>
         let chk := fun st0 => check_stmt P strict ret st0 b in
         bind (loop_iter P strict chk c 3 d fr) (fun r =>
           match r with
           | (d', V', em, ch) =>
-              let fin := Ok {| decl := d'; cur := merge P fr [push_map (Some V') em true] |} in
               if strict then
                 bind (loop_pass P strict chk c d' V') (fun r2 =>
                   match r2 with
                   | (d2, V2, em2, _) =>
-                      if decls_eqb P d2 d' && stable P V' V2
-                      then Ok {| decl := d'; cur := merge P fr [push_map (Some V') em2 true] |}
+                      let o := [push_map (Some V') em2 true] in
+                      let mg := merge P fr o in
+                      if decls_eqb P d2 d' && stable P V' V2 && view_le P d fr V' && merge_cert P mg o
+                      then Ok {| decl := d'; cur := mg |}
                       else Unsup
                   end)
-              else fin
+              else Ok {| decl := d'; cur := merge P fr [push_map (Some V') em true] |}
           end)
     | SReturn e =>
         bind (infer P strict d fr e) (fun xe =>
@@ -492,7 +535,8 @@ Fixpoint wf_ty (P : prog) (t : ty) : bool :=
 (* semanal "Name already defined": an annotated declaration of a name bound earlier in source order *)
 Fixpoint redecl_ok (P : prog) (seen : list id) (s : stmt) : option (list id) :=
   match s with
-  | SAssign x _ => Some (x :: seen)
+  | SAssign x _ => if mem_id x seen then Some seen else None
+  | SDef x _ => if mem_id x seen then None else Some (x :: seen)
   | SDecl x t _ => if mem_id x seen || negb (wf_ty P t) then None else Some (x :: seen)
   | SIf _ a b => match redecl_ok P seen a with Some s1 => redecl_ok P s1 b | None => None end
   | SSeq a b => match redecl_ok P seen a with Some s1 => redecl_ok P s1 b | None => None end
@@ -517,7 +561,7 @@ Fixpoint expr_vars (e : expr) : list id :=
 
 Fixpoint stmt_reads (s : stmt) : list id :=
   match s with
-  | SAssign _ e | SDecl _ _ e | SReturn e | SAssert e | SExpr e => expr_vars e
+  | SAssign _ e | SDef _ e | SDecl _ _ e | SReturn e | SAssert e | SExpr e => expr_vars e
   | SIf c a b => expr_vars c ++ stmt_reads a ++ stmt_reads b
   | SWhile c b => expr_vars c ++ stmt_reads b
   | SSeq a b => stmt_reads a ++ stmt_reads b
@@ -661,7 +705,8 @@ Fixpoint annot (P : prog) (ret : ty) (st : cst) (s : stmt) {struct s} : list ann
     | SLab _ s1 => annot P ret st s1
     | SSeq a b => annot P ret st a ++
                   match check_stmt P false ret st a with Ok st1 => annot P ret st1 b | _ => [] end
-    | SExpr e | SAssign _ e | SDecl _ _ e | SReturn e | SAssert e => top_reveal P d fr e
+    | SExpr e | SAssign _ e | SDef _ e | SReturn e | SAssert e => top_reveal P d fr e
+    | SDecl x t e => top_reveal P (if in_dom x d then d else d ++ [(x, t)]) fr e
     | SIf c s1 s2 =>
         match infer P false d fr c with
         | Ok xc =>
